@@ -59,6 +59,9 @@ void World::auditI2()
     for (size_t fi = 0; fi < forests.size(); fi++) {
         ForRT &F = forests[fi];
         if (!F.alive) continue;
+        // index-set nodes carry a cardinality header that takes part in
+        // uniqueness: one function may legitimately have several edges there
+        if (F.kind() == FK_IDX) continue;
         std::vector<EdgeSlot*> es;
         for (EdgeSlot* e : edges) {
             if (e->forest == int(fi) && e->oracle && e->tab.exact()) es.push_back(e);
@@ -245,8 +248,10 @@ void World::auditForestStructure(ForRT &F)
         if (!err.empty()) { failNow("I3", cur_family, where.str() + err); return; }
     }
 
-    // duplicates: no two nodes at a level have identical content
+    // duplicates: no two nodes at a level have identical content (index-set
+    // nodes also carry a cardinality header that takes part in uniqueness)
     for (auto &kv : byLevel) {
+        if (kind == FK_IDX) break;
         std::map<std::string, node_handle> seen;
         for (node_handle p : kv.second) {
             unpacked_node* U = unpacked_node::newFromNode(f, p, FULL_ONLY);
